@@ -210,3 +210,26 @@ def enclosing_tests(func_node: ast.AST, stmt: ast.AST) -> list[tuple[ast.AST, bo
 
     find(func_node, [])
     return out
+
+
+def kwarg_via(fl, call: ast.Call, name: str, at: int) -> ast.AST | None:
+    """keyword argument `name` of `call`, also when it travels in a dict built just for the
+    call: f(**opts) with opts = dict(name=…, …) / {"name": …, …} (single definition)"""
+    v = kwarg(call, name)
+    if v is not None:
+        return v
+    for k in call.keywords:
+        if k.arg is None and isinstance(k.value, ast.Name):
+            ds = fl.rdefs(k.value.id, at)
+            if len(ds) != 1 or ds[0].value is None:
+                continue
+            d = ds[0].value
+            if isinstance(d, ast.Call) and isinstance(d.func, ast.Name) and d.func.id == "dict" and not d.args:
+                for kk in d.keywords:
+                    if kk.arg == name:
+                        return kk.value
+            if isinstance(d, ast.Dict):
+                for kk, vv in zip(d.keys, d.values):
+                    if isinstance(kk, ast.Constant) and kk.value == name:
+                        return vv
+    return None
